@@ -2230,6 +2230,15 @@ post_enhance(vbi_page *pg, int display_rows)
 			}
 			/* transparent foreground not implemented */
 
+			if (column >= COLUMNS - 1) {
+				/* No room for the right half of a double
+				   width character, same as at Level 1. */
+				if (VBI_DOUBLE_WIDTH == acp->size)
+					acp->size = VBI_NORMAL_SIZE;
+				else if (VBI_DOUBLE_SIZE == acp->size)
+					acp->size = VBI_DOUBLE_HEIGHT;
+			}
+
 			switch (acp->size) {
 			case VBI_NORMAL_SIZE:
 				if (row < last_row
@@ -2345,6 +2354,31 @@ default_object_invocation	(vbi_decoder *		vbi,
 	return TRUE;
 }
 
+/* Column 40 has no right neighbour, and what it copies from column 39
+   may be the right half of a double width character. */
+static void
+column_41_size			(vbi_char *		acp)
+{
+	switch (acp->size) {
+	case VBI_DOUBLE_WIDTH:
+	case VBI_OVER_TOP:
+	case VBI_OVER_BOTTOM:
+		acp->size = VBI_NORMAL_SIZE;
+		break;
+
+	case VBI_DOUBLE_SIZE:
+		acp->size = VBI_DOUBLE_HEIGHT;
+		break;
+
+	case VBI_DOUBLE_SIZE2:
+		acp->size = VBI_DOUBLE_HEIGHT2;
+		break;
+
+	default:
+		break;
+	}
+}
+
 /**
  * @internal
  *
@@ -2371,6 +2405,7 @@ column_41			(vbi_page *		pg,
 
 	acp[40] = acp[39];
 	acp[40].unicode = 0x0020;
+	column_41_size (&acp[40]);
 
 	if (1 == pg->rows)
 		return;
@@ -2405,6 +2440,7 @@ column_41			(vbi_page *		pg,
 	if (!black0 && cont39) {
 		for (row = 1; row <= 24; ++row) {
 			acp[40] = acp[39];
+			column_41_size (&acp[40]);
 
 			if (!vbi_is_gfx (acp[39].unicode))
 				acp[40].unicode = 0x0020;
@@ -2431,6 +2467,7 @@ column_41			(vbi_page *		pg,
 
 	acp[40] = acp[39];
 	acp[40].unicode = 0x0020;
+	column_41_size (&acp[40]);
 }
 
 /**
